@@ -5,6 +5,7 @@
 #include <string>
 #include <vector>
 
+#include "common/types.h"
 #include "common/geo.h"
 #include "common/rng.h"
 #include "draco/compression/config/compression_shared.h"
@@ -88,7 +89,7 @@ inline void AvoidHugeEntropyTables(const Geo &g, EncOpts *o) {
   for (size_t a = 0; a < g.atts.size(); ++a) {
     const Attr &at = g.atts[a];
     if (at.dt == draco::DT_FLOAT32) { if (EffectiveQBits(g, *o, static_cast<int>(a)) > 18) big = true; if (a < o->explicit_q.size() && o->explicit_q[a].bits > 18) big = true; continue; }
-    const int len = draco::DataTypeLength(at.dt);
+    const int len = vf::TypeBytes(at.dt);
     if (len < 4) continue;
     for (size_t i = 0; i < at.nvals * at.nc && !big; ++i) { int32_t v; memcpy(&v, at.data.data() + i * 4, 4); if (v > (1 << 18) || v < -(1 << 18)) big = true; }
   }
@@ -101,7 +102,7 @@ inline void AvoidHugeEntropyTables(const Geo &g, EncOpts *o) {
     for (size_t a = 0; a < g.atts.size(); ++a) if (g.atts[a].type == draco::GeometryAttribute::TEX_COORD && g.atts[a].nc == 2) {
       has_uv = true;
       const Attr &at = g.atts[a];
-      if (at.dt != draco::DT_FLOAT32 && draco::DataTypeLength(at.dt) == 4) big_int_uv = true;
+      if (at.dt != draco::DT_FLOAT32 && vf::TypeBytes(at.dt) == 4) big_int_uv = true;
     }
     if (big_int_uv) {
       // integer texture coordinates of up to 30 bits: keep the tex-coord predictor off (speed >= 4, not forced)
